@@ -143,6 +143,17 @@ var legalEdges = map[[2]ring.InstanceState]bool{
 	{ring.ACTIVE, ring.LEAVING}: true, {ring.LEAVING, ring.ACTIVE}: true,
 }
 
+// claimsOf lists the instances whose tokens the scenario lets lifecycler w claim.
+func claimsOf(sc scenario, w string) map[string]bool {
+	m := map[string]bool{}
+	for _, a := range sc.actions {
+		if a.kind == "claim" && a.who == w {
+			m[a.arg] = true
+		}
+	}
+	return m
+}
+
 // monitor checks every recorded write; returns the first violation.
 func monitor(sc scenario, st *Store, t0 time.Time) (key, what string) {
 	specs := map[string]lcSpec{}
@@ -150,6 +161,7 @@ func monitor(sc scenario, st *Store, t0 time.Time) (key, what string) {
 		specs[s.id] = s
 	}
 	tokensChosen := map[string]bool{}
+	handedOver := map[string]bool{} // lifecyclers whose tokens come from a hand-over (inherited, not chosen)
 	for _, w := range st.Writes {
 		sp, isLC := specs[w.Writer]
 		if !isLC {
@@ -177,6 +189,20 @@ func monitor(sc scenario, st *Store, t0 time.Time) (key, what string) {
 			if sp.autoForget > 0 && aok && !bok && w.At.Sub(time.Unix(a.Timestamp, 0)) > sp.autoForget {
 				continue // documented: auto-forget of a long-dead instance
 			}
+			if claimsOf(sc, w.Writer)[id] && aok && bok {
+				// documented: the explicit token hand-over. The other entry loses its tokens and nothing else, and the
+				// claimer's tokens become exactly those tokens, sorted.
+				stripped := a
+				stripped.Tokens = nil
+				mine := out.Ingesters[w.Writer]
+				moved := append([]uint32(nil), a.Tokens...)
+				sort.Slice(moved, func(i, j int) bool { return moved[i] < moved[j] })
+				if instStr(stripped) == instStr(b) && fmt.Sprint(mine.Tokens) == fmt.Sprint(moved) {
+					handedOver[w.Writer] = true
+					continue
+				}
+				return "bad-hand-over", fmt.Sprintf("at +%v lifecycler %s claimed the tokens of %s: %v → %v, its own tokens became %v", at, w.Writer, id, show(a, aok), show(b, bok), mine.Tokens)
+			}
 			return "foreign-edit", fmt.Sprintf("at +%v lifecycler %s changed the entry of %s: %v → %v", at, w.Writer, id, show(a, aok), show(b, bok))
 		}
 		a, aok := in.Ingesters[w.Writer]
@@ -199,7 +225,7 @@ func monitor(sc scenario, st *Store, t0 time.Time) (key, what string) {
 				}
 			}
 			inherited := aok && len(a.Tokens) > 0
-			if len(b.Tokens) > 0 && !inherited && !tokensChosen[w.Writer] && sp.tokensFile == "" {
+			if len(b.Tokens) > 0 && !inherited && !tokensChosen[w.Writer] && !handedOver[w.Writer] && sp.tokensFile == "" {
 				tokensChosen[w.Writer] = true
 				// this is the call that chose the tokens: none may be visible as another instance's token in its input
 				for _, id := range sortedKeys(in.Ingesters) {
@@ -340,6 +366,13 @@ func runC08(t *testing.T, sc scenario, ch *sched.Chooser) (res sched.Result) {
 						}
 					}
 					sched.Obs(fmt.Sprintf("ready %s -> %v", a.who, err == nil))
+				case "claim":
+					if in.full != nil {
+						sched.Obs("claim " + a.who + " <- " + a.arg)
+						if err := in.full.ClaimTokensFor(context.Background(), a.arg); err != nil {
+							sched.Obs("claim-error " + err.Error())
+						}
+					}
 				case "external-edit":
 					// somebody else (an operator) changes the lifecycler's entry: not attributed to the lifecycler
 					cur := descOf(st.Peek(ringKey))
@@ -435,6 +468,8 @@ func scenariosC08() []scenario {
 		// start-up select never has the observe timer and a heartbeat tick ready together within the deviation bound
 		// (Go picks among ready cases at random, which no scheduler hook can decide).
 		{name: "basic-observe-long", lcs: []lcSpec{{id: "a", basic: true, heartbeat: 3 * time.Second, observe: 3250 * time.Millisecond}, {id: "b", basic: true, heartbeat: 3 * time.Second, observe: 6250 * time.Millisecond}}, horizon: 11 * time.Second},
+		// token hand-over: b leaves (entry kept), a — still pending — claims b's tokens, then finishes joining with them
+		{name: "hand-over", lcs: []lcSpec{{id: "a", joinAfter: 8 * time.Second}, {id: "b"}}, actions: []action{{at: 3 * time.Second, kind: "stop", who: "b"}, {at: 5 * time.Second, kind: "claim", who: "a", arg: "b"}, {at: 10 * time.Second, kind: "ready", who: "a"}}, horizon: 14 * time.Second},
 		{name: "basic-autoforget", seed: nil, lcs: []lcSpec{{id: "a", basic: true, autoForget: 8 * time.Second}, {id: "b", basic: true}}, actions: []action{{at: 2 * time.Second, kind: "stop", who: "b"}}, horizon: 22 * time.Second},
 		{name: "mixed", lcs: []lcSpec{{id: "a", joinAfter: 1500 * time.Millisecond}, {id: "b", basic: true}}, horizon: 14 * time.Second},
 		{name: "three-joiners", lcs: []lcSpec{{id: "a", joinAfter: 1500 * time.Millisecond}, {id: "b", joinAfter: 1500 * time.Millisecond}, {id: "c", basic: true}}, horizon: 9 * time.Second},
